@@ -8,6 +8,7 @@ package harness
 
 import (
 	"context"
+	"errors"
 	"fmt"
 	"sort"
 	"strconv"
@@ -655,6 +656,10 @@ type batchRun struct {
 	Panic    string
 	Finished time.Duration
 	Events   []BEv
+	// Rejected: prep returned its items without error, nothing else was called and Run returned an
+	// error although the context was live - the implementation does not accept this (undocumented)
+	// form of prep result. No property speaks about that; the judges skip such a case.
+	Rejected bool
 }
 
 // run executes the scenario under the controller. Must be called inside a bubble.
@@ -712,6 +717,7 @@ func (x *batchExec) run() batchRun {
 			br.CtxErr = ctx.Err()
 			br.Events = x.snapshot()
 			x.drain()
+			br.Rejected = x.rejected(br)
 			return br
 		default:
 		}
@@ -775,6 +781,30 @@ func (x *batchExec) run() batchRun {
 		step++
 		close(p.gate)
 	}
+}
+
+func (x *batchExec) rejected(br batchRun) bool {
+	return prepFormRejected(x.sc, br.Events, br.Err, br.Panic, br.CtxErr)
+}
+
+// prepFormRejected: see batchRun.Rejected. Only the builder's own WithPrepFunc form ([]Result)
+// is documented; every other form is installed by replacing the node's embedded CustomNode.
+func prepFormRejected(sc *BatchSc, evs []BEv, err error, panicMsg string, ctxErr error) bool {
+	if err == nil || panicMsg != "" || sc.PrepForm == PFResults || sc.PrepErr != 0 {
+		return false
+	}
+	if ctxErr != nil && errors.Is(err, ctxErr) {
+		return false // the run reports the cancellation
+	}
+	if len(evs) == 0 {
+		return false
+	}
+	for _, e := range evs {
+		if e.Kind != "prep" || e.RetErr != nil {
+			return false
+		}
+	}
+	return true
 }
 
 // drain: the run has returned. Callbacks that are still parked on the harness's own gates
